@@ -272,7 +272,7 @@ namespace
                 else if (k < 780)
                     p.ops.push_back({OP_UNPLAN, (int64_t)r.below(nt)});
                 else if (k < 780 + script_pm / 2 + 60)
-                    p.ops.push_back({OP_SCRIPT, (int64_t)r.below(nt), r.range(0, 6), (int64_t)r.below(nt), interval(),
+                    p.ops.push_back({OP_SCRIPT, (int64_t)r.below(nt), r.range(0, 7), (int64_t)r.below(nt), interval(),
                                      r.range(1, 3)});
                 else if (k < 960)
                     p.ops.push_back({OP_REPLAN_SAME, (int64_t)r.below(nt)});
@@ -455,6 +455,14 @@ namespace
                     pending_changed = true;
                     probe("callback_planned_future");
                     break;
+                case 7:
+                    // the callback changes its own period (a back-off): the re-arm that follows uses the new interval
+                    if (std::is_unsigned<TT>::value) break; // (a longer period would put the re-armed start ahead of now, see Units<uint32_t>)
+                    tim[id]->set_interval(iv);
+                    model[id].interval = iv;
+                    pending_changed = true;
+                    probe("callback_changed_its_own_period");
+                    break;
                 case 6:
                     if (o != id)
                     {
@@ -569,7 +577,7 @@ namespace
                     do_unplan(ti);
                     break;
                 case OP_SCRIPT:
-                    script[ti].kind = (int)mod(arg(o, 2), 7);
+                    script[ti].kind = (int)mod(arg(o, 2), 8);
                     script[ti].a = arg(o, 3);
                     script[ti].b = mod(arg(o, 4) - 1, 5000) + 1;
                     script[ti].budget = (int)mod(arg(o, 5), 4);
